@@ -139,7 +139,7 @@ func listLen(db *model.DB, k string) int {
 	return -1
 }
 
-func c03Observe(argv []string, before *model.DB, exp model.Exp, st *kit.Stats, flags map[string]bool) {
+func c03Observe(argv []string, before *model.DB, exp model.Exp, st *kit.Stats, flags map[string]int) {
 	name := argv[0]
 	st.Class("cmd:" + upper(name))
 	if exp.IsErr() {
@@ -150,7 +150,7 @@ func c03Observe(argv []string, before *model.DB, exp model.Exp, st *kit.Stats, f
 	}
 	n := listLen(before, argv[1])
 	if n >= 3 {
-		flags["len3"] = true
+		flags["len3"]++
 	}
 	up := upper(name)
 	// boundary-addressing operations
@@ -166,12 +166,12 @@ func c03Observe(argv []string, before *model.DB, exp model.Exp, st *kit.Stats, f
 			continue
 		}
 		if v == int64(-n-1) || v == int64(-n) || v == int64(n-1) || v == int64(n) {
-			flags["boundary"] = true
+			flags["boundary"]++
 			st.Class("boundary-index")
 		}
 	}
 	if (up == "LMOVE" || up == "RPOPLPUSH") && len(argv) >= 3 && argv[1] == argv[2] && n >= 1 {
-		flags["samelist"] = true
+		flags["samelist"]++
 		st.Class("move-same-list")
 	}
 }
@@ -187,9 +187,9 @@ func upper(s string) string {
 }
 
 func c03Run(c SeqCase, st *kit.Stats) error {
-	flags := map[string]bool{}
+	flags := map[string]int{}
 	err := runSeq(c, st, seqHooks{observe: c03Observe}, flags)
-	if err == nil && flags["len3"] && (flags["boundary"] || flags["samelist"]) {
+	if err == nil && flags["len3"] > 0 && (flags["boundary"] > 0 || flags["samelist"] > 0) {
 		st.NonTrivial(c.Canon(), c.Sample())
 	}
 	return err
